@@ -417,9 +417,29 @@ class FlatGen:
         self.tags.add(x)
 
     # -- whole model ----------------------------------------------------------------------------
-    def build(self, n_eq=None, weights=None):
+    def eq_delay(self):
         r = self.r
-        self.declare_pool()
+        if not self.params:
+            self.decl("pd", prefixes=["parameter"], value=num(round(r.uniform(0.5, 3), 2)))
+            self.params.append("pd")
+        g = self.gen(allow_if=False, with_der=False)
+        inner = var(r.choice(self.scalars)) if r.random() < 0.5 else g.real(1)
+        if not mexpr.vars_in(inner):
+            inner = ("bin", "+", inner, var(self.scalars[0]))
+        dur = r.choice([var(self.params[0]), num(round(r.uniform(0.5, 5), 1)), ("bin", "*", num(2), var(self.params[0]))])
+        self.m["eqs"].append(("eq", self.fresh_target(), ("call", "delay", [inner, dur])))
+        self.delays = getattr(self, "delays", []) + [(inner, dur)]
+        self.tags.add("core:delay")
+
+    def build(self, n_eq=None, weights=None, require=()):
+        r = self.r
+        self.declare_pool(**({"n_vec": r.randint(1, 3)} if "for" in require else {}))
+        if "for" in require:
+            self.eq_for()
+        if "func" in require:
+            self.eq_func()
+        if "delay" in require:
+            self.eq_delay()
         n_eq = r.randint(2, 7) if n_eq is None else n_eq
         templ = [self.eq_scalar] * 4 + [self.eq_bool, self.eq_if, self.eq_if, self.eq_for, self.eq_for,
                                         self.eq_for, self.eq_array, self.eq_array, self.eq_array,
